@@ -422,6 +422,11 @@ impl Oracle for IinOracle {
                                     if clears_restart && s.contains("Processed") {
                                         self.restart = Tri::No;
                                     }
+                                    // a DISABLE_UNSOLICITED ends the unsolicited series in flight, by broadcast as by unicast:
+                                    // its events are no longer "part of a response still awaiting confirmation"
+                                    if s.contains("DisableUnsolicited") && s.contains("Processed") {
+                                        self.unsol = None;
+                                    }
                                 }
                             }
                         } else if s.starts_with("solicited_confirm_timeout")
